@@ -1,4 +1,3 @@
-//verif:race
 // C04 — block space is never reused while referenced, and never leaked; every
 // buffer is consumed or released exactly once.
 //
@@ -17,12 +16,15 @@
 //   - upload sources and ReadAtClosers are closed exactly once;
 //   - fault injection at every failure point (allocation, device write,
 //     upload source, state write, data sync, digest mismatch on re-upload).
+//
+//verif:race
 package main
 
 import (
 	"context"
 	"fmt"
 	"strings"
+	"sync"
 	"time"
 
 	"github.com/buildbarn/bb-storage/pkg/blobstore/buffer"
@@ -81,12 +83,72 @@ type env struct {
 	id    int
 	evPos int
 	// block list mirror for the ordering monitor
-	listIDs   []int64         // IDs of blocks in list order
-	popSeq    map[int64]int64 // offset -> event seq of the pop that retired the incarnation at that offset (persistent)
-	heldRefs  map[int64]int   // blockID -> references held by the harness
-	sigParts  map[string]bool
-	nontriv   bool
-	inst      string
+	listIDs  []int64         // IDs of blocks in list order
+	popSeq   map[int64]int64 // offset -> event seq of the pop that retired the incarnation at that offset (persistent)
+	heldRefs map[int64]int   // blockID -> references held by the harness
+	sigParts map[string]bool
+	nontriv  bool
+	inst     string
+	park     *parker
+}
+
+// parker parks device writes that target one region (the block an in-flight
+// upload is writing into), so that rotations can be driven between the
+// individual WriteAt calls of that upload, including its final flush of the
+// trailing partial sector.
+type parker struct {
+	mu      sync.Mutex
+	armed   bool
+	lo, hi  int64
+	waiting []chan struct{}
+	total   int
+}
+
+func (p *parker) hook(kind string, off int64, n int) {
+	if kind != "write" {
+		return
+	}
+	p.mu.Lock()
+	if !p.armed || off+int64(n) <= p.lo || off >= p.hi {
+		p.mu.Unlock()
+		return
+	}
+	ch := make(chan struct{})
+	p.waiting = append(p.waiting, ch)
+	p.total++
+	p.mu.Unlock()
+	<-ch
+}
+
+func (p *parker) arm(lo, hi int64) {
+	p.mu.Lock()
+	p.armed, p.lo, p.hi = true, lo, hi
+	p.mu.Unlock()
+}
+
+func (p *parker) parked() int {
+	p.mu.Lock()
+	defer p.mu.Unlock()
+	return len(p.waiting)
+}
+
+func (p *parker) releaseOne() {
+	p.mu.Lock()
+	if len(p.waiting) > 0 {
+		close(p.waiting[0])
+		p.waiting = p.waiting[1:]
+	}
+	p.mu.Unlock()
+}
+
+func (p *parker) disarm() {
+	p.mu.Lock()
+	p.armed = false
+	for _, ch := range p.waiting {
+		close(ch)
+	}
+	p.waiting = nil
+	p.mu.Unlock()
 }
 
 func body(w *run.Worker) {
@@ -108,11 +170,22 @@ func body(w *run.Worker) {
 			cfg.Records = r.Range(300, 900)
 			cfg.GetAttempts, cfg.PutAttempts = 16, 64
 		}
-		s, err := asm.Build(cfg, asm.NewMedia(cfg))
+		media := asm.NewMedia(cfg)
+		park := &parker{}
+		var gate *asm.Gate
+		media.Blocks.Hook = func(kind string, off int64, n int) {
+			if kind == "sync-mid" {
+				gate.Pass("sync-mid")
+				return
+			}
+			park.hook(kind, off, n)
+		}
+		s, err := asm.Build(cfg, media)
 		if err != nil {
 			panic(err)
 		}
-		e := &env{c: c, w: w, s: s, cfg: cfg, r: r, ctx: ctx, popSeq: map[int64]int64{}, heldRefs: map[int64]int{}, sigParts: map[string]bool{}, inst: []string{"", "t", "t/u"}[r.Intn(3)]}
+		gate = s.Gate
+		e := &env{park: park, c: c, w: w, s: s, cfg: cfg, r: r, ctx: ctx, popSeq: map[int64]int64{}, heldRefs: map[int64]int{}, sigParts: map[string]bool{}, inst: []string{"", "t", "t/u"}[r.Intn(3)]}
 		c.Desc("%v", cfg)
 		if c.Index == 0 {
 			w.Sample(map[string]any{"config": cfg.String()})
@@ -720,8 +793,60 @@ func (e *env) gatedWriter() {
 		}
 		e.scanEvents()
 	}
-	close(gate)
+	// Second phase: park every device write the upload still issues into
+	// its block (remaining sectors and the final flush of the trailing
+	// partial sector) and rotate while each of them is pending.
+	var fillers []chan *objT
+	opened := false
+	if wb >= 0 && r.Chance(2, 3) {
+		off := s.Alloc.Blocks()[wb].Offset
+		e.park.arm(off, off+cfg.BlockBytes())
+		e.sigParts["parked-flush"] = true
+		close(gate)
+		opened = true
+		for round := 0; round < 6; round++ {
+			run.Settle(20 * time.Second)
+			if e.park.parked() == 0 {
+				break
+			}
+			e.w.Count("parked_writer_device_writes", 1)
+			for k := cfg.BlockCount() + 1; k > 0; k-- {
+				fd := e.newData(r.Range(block/2, block))
+				fo := &objT{d: gen.SHA256Digest(e.inst, fd), data: fd}
+				u := &asm.Upload{Data: fd, Chunks: r.Chunking(len(fd), true)}
+				ch := make(chan *objT, 1)
+				go func() {
+					if s.BA.Put(e.ctx, fo.d, u.CASBuffer(fo.d)) == nil {
+						ch <- fo
+					} else {
+						ch <- nil
+					}
+				}()
+				fillers = append(fillers, ch)
+				if cfg.Persistent {
+					e.drain()
+				} else {
+					run.Settle(20 * time.Second)
+				}
+				e.scanEvents()
+			}
+			e.park.releaseOne()
+		}
+		e.park.disarm()
+	}
+	if !opened {
+		close(gate)
+	}
 	err := <-done
+	for _, ch := range fillers {
+		if fo := <-ch; fo != nil {
+			e.objs = append(e.objs, fo)
+		}
+	}
+	if cfg.Persistent {
+		e.drain()
+	}
+	e.scanEvents()
 	if wb >= 0 {
 		e.heldRefs[wb]--
 	}
